@@ -3,8 +3,9 @@
    enumeration), Proofs/PathsSpec.v (enumeration = declarative places),
    Proofs/PathsLeaves.v (expansion) and Proofs/PathsMain.v.
 
-   Model: Model/PathsSearch.v (search_for_paths, yield_children,
-   search_anchor, get_search_term as they are after the five `fix:` commits).
+   Model: Model/PathsSearch.v (search_for_paths, yield_children, record_anchors,
+   search_anchor, get_search_term as they are after the `fix:` commits, the
+   last two being the lone-scalar document branch and record_anchors).
    Spec: Spec/SpecC07.v (places of a document, `satisfies`, `justified`,
    `wanted`, `leaf_place`).
 
@@ -53,7 +54,7 @@ Proof.
   split; [simpl; repeat constructor; simpl; tauto|].
   split; [vm_compute; reflexivity|]. split.
   - left. split; [reflexivity|]. exists (C07_leaf "a"). split; [|vm_compute; reflexivity].
-    exists [RKey (PStr "a")], (NMap C07_i0 [(C07_leaf "b", C07_leaf "a")]), (RKey (PStr "b")).
+    left. exists [RKey (PStr "a")], (NMap C07_i0 [(C07_leaf "b", C07_leaf "a")]), (RKey (PStr "b")).
     split; [reflexivity|]. split; [|split; [|reflexivity]].
     + apply (reach_step C07_wdoc (key_ref (C07_leaf "a")) (NMap C07_i0 [(C07_leaf "b", C07_leaf "a")])).
       * constructor. left; reflexivity.
@@ -73,7 +74,10 @@ Theorem C07_complete_partial :
 Proof. exact complete_cover. Qed.
 Print Assumptions C07_complete_partial.
 
-(* ---- values-only search (the default): completeness at full strength ---- *)
+(* ---- values-only search (the default): completeness at full strength.
+        "For any document": the lone scalar a document may consist of is a
+        value place too (SpecC07.root_place, at the root location []); the
+        former exception (finding F-C07-3 scalar_document) is repaired. ---- *)
 Theorem C07_complete :
   forall lit re_search (mt : mtable) (tm : terms) (sp : sep) (o : opts) (d : node) (res : list hit),
     o_anchors o = false -> o_expand o = false -> transparent mt o d -> o_keys o = false ->
@@ -81,6 +85,30 @@ Theorem C07_complete :
     forall l, wanted lit re_search tm o d l -> exists h, In h res /\ h_loc h = l.
 Proof. exact complete_values. Qed.
 Print Assumptions C07_complete.
+
+(* the former witness of finding F-C07-3: the document `a` searched for =a.
+   The root is wanted and reported, by the root path of the notation ("" in
+   dot notation, "/" in forward-slash notation: what yaml-get -p takes for the
+   document itself); key-only searches and the null (empty) document report
+   nothing, and nothing is wanted there *)
+Example C07_scalar_document :
+  wanted C07_lit0 C07_re0 C07_tm_a (mkopts true false false true false false) (C07_leaf "a") []
+  /\ search_doc C07_lit0 C07_re0 [] C07_tm_a Dot (mkopts true false false true false false) (C07_leaf "a")
+     = Ok [mkhit "" [] HValue]
+  /\ search_doc C07_lit0 C07_re0 [] C07_tm_a Slash (mkopts true true false true false true) (C07_leaf "a")
+     = Ok [mkhit "/" [] HValue]
+  /\ search_doc C07_lit0 C07_re0 [] C07_tm_a Dot (mkopts false true false true false false) (C07_leaf "a") = Ok []
+  /\ search_doc C07_lit0 C07_re0 [] (mkterms true MEquals "*" "a") Dot (mkopts true false false true false false)
+                (NLeaf C07_i0 PNone) = Ok []
+  /\ ~ wanted C07_lit0 C07_re0 (mkterms true MEquals "*" "a") (mkopts true false false true false false)
+              (NLeaf C07_i0 PNone) [].
+Proof.
+  split; [left; split; [reflexivity|]; exists (C07_leaf "a"); split; [right; repeat split; reflexivity|vm_compute; reflexivity]|].
+  split; [vm_compute; reflexivity|]. split; [vm_compute; reflexivity|]. split; [vm_compute; reflexivity|].
+  split; [vm_compute; reflexivity|].
+  intros W. apply (wanted_leaf C07_lit0 C07_re0 _ (mkopts true false false true false false) C07_i0 PNone []) in W.
+  destruct W as [_ [_ [W _]]]. discriminate W.
+Qed.
 
 (* ---- each place at most once ---- *)
 Theorem C07_once :
@@ -139,12 +167,13 @@ Proof. exact yield_children_leaves. Qed.
 Print Assumptions C07_expand.
 
 (* with expansion on, the whole search lists the enumeration in which a matched
-   key is replaced by the leaf descendants of its value (PathsEnum.key_hit_enum) *)
+   key is replaced by the leaf descendants of its value (PathsEnum.key_hit_enum);
+   enum_doc d = enum d [] for a container, the root place for a lone scalar *)
 Theorem C07_expand_search :
   forall lit re_search (mt : mtable) (tm : terms) (sp : sep) (o : opts) (d : node) (res : list hit),
     o_anchors o = false -> transparent mt o d ->
     search_doc lit re_search mt tm sp o d = Ok res ->
-    map h_lk res = enum lit re_search tm o d [].
+    map h_lk res = enum_doc lit re_search tm o d.
 Proof. exact search_doc_enum. Qed.
 Print Assumptions C07_expand_search.
 
@@ -179,7 +208,7 @@ Proof.
          C07_doc_reuse, [RIdx 1].
   split; [reflexivity|]. split; [reflexivity|]. split; [reflexivity|]. split; [vm_compute; reflexivity|].
   left. split; [reflexivity|]. exists (NLeaf (mkinfo 2 (Some "x") true None) (PStr "b")). split; [|vm_compute; reflexivity].
-  exists [], C07_doc_reuse, (RIdx 1). split; [reflexivity|].
+  left. exists [], C07_doc_reuse, (RIdx 1). split; [reflexivity|].
   split; [constructor|]. split; [|reflexivity]. apply child_seq. reflexivity.
 Qed.
 
@@ -244,7 +273,8 @@ Proof. vm_compute. reflexivity. Qed.
         visible places.
 
         (a) every visible satisfying place is still reported (or lies beneath a
-            reported matching key: finding key_match_prunes_subtree).  Guard:
+            reported matching key: finding key_match_prunes_subtree, which is
+            deliberate).  Guard:
             anchor names and objects go together (fails when a document
             redefines an anchor name: finding reused_anchor_name). ---- *)
 Theorem C07_alias_complete_partial :
@@ -268,19 +298,24 @@ Proof.
   split; [reflexivity|]. split; [reflexivity|]. split; [reflexivity|]. split; [vm_compute; reflexivity|].
   left. split; [reflexivity|]. exists (NLeaf (mkinfo 2 (Some "x") true None) (PStr "b")).
   split; [|split; [reflexivity|vm_compute; reflexivity]].
-  exists [], (RIdx 1), [], C07_doc_reuse. split; [reflexivity|]. split; [constructor|].
+  left. exists [], (RIdx 1), [], C07_doc_reuse. split; [reflexivity|]. split; [constructor|].
   left. exists C07_i0, [NLeaf (mkinfo 1 (Some "x") true None) (PStr "a"); NLeaf (mkinfo 2 (Some "x") true None) (PStr "b")], 1.
   split; [reflexivity|]. split; [reflexivity|]. split; [reflexivity|]. intros _. vm_compute. reflexivity.
 Qed.
 
 (* (b) no aliased repeat is reported unless the alias options ask for it: every
-       report is a visible satisfying place of its kind.  Guards: names and
-       objects go together, and no anchored node is met for the first time
-       inside a part the search does not enter (`exposed`). ---- *)
+       report is a visible satisfying place of its kind.  Guard (finding
+       reused_anchor_name): names and objects go together.  The second
+       hypothesis, `shared_closed`, is no finding but what the YAML loader
+       guarantees (like nodup_keys): an aliased repeat / a merged-in entry IS
+       the object met before, so nothing anchored occurs for the first time
+       inside it.  (The former guard `exposed` also excluded anchors first
+       defined beneath a matched key or beneath the value of an excluded
+       aliased key: repaired, record_anchors.) ---- *)
 Theorem C07_alias_excluded_partial :
   forall lit re_search (mt : mtable) (tm : terms) (sp : sep) (o : opts) (d : node) (res : list hit),
     o_anchors o = false -> o_expand o = false -> names_consistent (anc_occs d) = true ->
-    exposed lit re_search tm mt o d [] = true ->
+    shared_closed mt o d [] = true ->
     search_doc lit re_search mt tm sp o d = Ok res ->
     forall h, In h res -> vjustified lit re_search tm mt o d h.
 Proof. exact alias_excluded. Qed.
@@ -293,46 +328,42 @@ Theorem C07_alias_visible_sound :
 Proof. exact vjustified_justified. Qed.
 Print Assumptions C07_alias_visible_sound.
 
-(* without `exposed`: {a: {k: &w b}, z: *w} searched for <c with --keynames under
-   --anchorsonly.  Key a matches, so nothing beneath it is visited and &w is not
-   recorded; the alias z: *w then passes for the original and is reported
-   (second clause of finding key_match_prunes_subtree). *)
+(* the former witness of the second half of finding key_match_prunes_subtree:
+   {a: {k: &w b}, z: *w} searched for <c with --keynames under --anchorsonly.
+   Key a matches, nothing beneath it is searched, but record_anchors puts &w on
+   record: the alias z: *w is recognised and no longer reported.  Also
+   {&k a: 1, b: {*k : {x: &n v}}, c: *n} searched for =v: &n is first defined
+   beneath the value of an excluded aliased key; c: *n is not reported. *)
 Definition C07_w : node := NLeaf (mkinfo 5 (Some "w") true None) (PStr "b").
 Definition C07_doc_prune : node :=
   NMap C07_i0 [(C07_leaf "a", NMap C07_i0 [(C07_leaf "k", C07_w)]); (C07_leaf "z", C07_w)].
 Definition C07_tm_ltc : terms := mkterms false MLt "*" "c".
 Definition C07_o_kv_none : opts := mkopts true true false false false false.
+Definition C07_ka : node := NLeaf (mkinfo 6 (Some "k") true None) (PStr "a").
+Definition C07_nv : node := NLeaf (mkinfo 7 (Some "n") true None) (PStr "v").
+Definition C07_doc_keyalias : node :=
+  NMap C07_i0 [(C07_ka, NLeaf C07_i0 (PInt 1));
+               (C07_leaf "b", NMap C07_i0 [(C07_ka, NMap C07_i0 [(C07_leaf "x", C07_nv)])]);
+               (C07_leaf "c", C07_nv)].
 
-Theorem C07_alias_excluded_refuted :
-  exists lit re_search mt tm sp o d res h,
-    o_anchors o = false /\ o_expand o = false /\ names_consistent (anc_occs d) = true /\
-    search_doc lit re_search mt tm sp o d = Ok res /\ In h res /\
-    ~ vjustified lit re_search tm mt o d h.
-Proof.
-  exists C07_lit0, C07_re0, [], C07_tm_ltc, Dot, C07_o_kv_none, C07_doc_prune,
-         [mkhit "a" [RKey (PStr "a")] HKey; mkhit "z" [RKey (PStr "z")] HValue], (mkhit "z" [RKey (PStr "z")] HValue).
-  split; [reflexivity|]. split; [reflexivity|]. split; [vm_compute; reflexivity|].
-  split; [vm_compute; reflexivity|]. split; [right; left; reflexivity|].
-  unfold vjustified. simpl h_kind. simpl h_loc.
-  intros [_ [s [[l0 [r0 [pre [tgt [El [R P]]]]]] _]]].
-  destruct l0 as [|a0 l0]; [|destruct l0; discriminate].
-  simpl in El. inversion El; subst r0. inversion R; subst.
-  destruct P as [[i [els [idx [H _]]]]|[i [kvs [pos [k [H [Hr [Hn [_ [_ Hs]]]]]]]]]]; [discriminate|].
-  inversion H; subst i kvs. destruct pos as [|[|pos]]; simpl in Hn.
-  - inversion Hn; subst. discriminate.
-  - inversion Hn; subst. specialize (Hs eq_refl). vm_compute in Hs. discriminate.
-  - destruct pos; discriminate.
-Qed.
+Example C07_alias_excluded_repaired :
+  names_consistent (anc_occs C07_doc_prune) = true /\
+  shared_closed [] C07_o_kv_none C07_doc_prune [] = true /\
+  search_doc C07_lit0 C07_re0 [] C07_tm_ltc Dot C07_o_kv_none C07_doc_prune = Ok [mkhit "a" [RKey (PStr "a")] HKey] /\
+  names_consistent (anc_occs C07_doc_keyalias) = true /\
+  shared_closed [] C07_o_none C07_doc_keyalias [] = true /\
+  search_doc C07_lit0 C07_re0 [] (mkterms false MEquals "*" "v") Dot C07_o_none C07_doc_keyalias = Ok [].
+Proof. vm_compute. repeat split; reflexivity. Qed.
 
 (* non-vacuity of the guards: {a: &x {k: a}, b: *x, c: {<<: *x}} under --anchorsonly *)
 Example C07_alias_guards_hold :
   names_consistent (anc_occs C07_doc3) = true /\
-  exposed C07_lit0 C07_re0 C07_tm_a C07_mt3 C07_o_none C07_doc3 [] = true /\
+  shared_closed C07_mt3 C07_o_none C07_doc3 [] = true /\
   vwanted C07_lit0 C07_re0 C07_tm_a C07_mt3 C07_o_none C07_doc3 [RKey (PStr "a"); RKey (PStr "k")].
 Proof.
   split; [vm_compute; reflexivity|]. split; [vm_compute; reflexivity|].
   left. split; [reflexivity|]. exists (C07_leaf "a"). split; [|split; [reflexivity|vm_compute; reflexivity]].
-  exists [RKey (PStr "a")], (RKey (PStr "k")), [C07_anch], C07_anch. split; [reflexivity|]. split.
+  left. exists [RKey (PStr "a")], (RKey (PStr "k")), [C07_anch], C07_anch. split; [reflexivity|]. split.
   - apply (vr_entry C07_mt3 C07_o_none [] C07_i0 _ 0 (C07_leaf "a") C07_anch [] [C07_anch] C07_anch).
     + reflexivity.
     + intros [H _]. vm_compute in H. discriminate.
